@@ -49,7 +49,7 @@ theorem finish_delivers_to_attached (s : St) (c : Cont) (v : Nat)
       some (.ran c.id c.ctx (deliveredOf s.kind v))
     ∧ (stepCore s (.finish v)).1.cont = none := by
   have halive' : c.ctx ∉ s.dead := alive_not_dead halive
-  simp [stepCore, hrefs, hnf, hc, halive', invokeCont]
+  simp [stepCore, finishCore, hrefs, hnf, hc, halive', invokeCont]
 
 /-- **Attached before finish, context dead ⇒ nothing runs and nothing is stored.** -/
 theorem finish_skips_dead_context (s : St) (c : Cont) (v : Nat)
@@ -57,7 +57,7 @@ theorem finish_skips_dead_context (s : St) (c : Cont) (v : Nat)
     (hdead : s.alive c.ctx = false) :
     (stepCore s (.finish v)).2 = [] ∧ (stepCore s (.finish v)).1.result = s.result := by
   have hdead' : c.ctx ∈ s.dead := by simpa [St.alive] using hdead
-  simp [stepCore, hrefs, hnf, hc, hdead']
+  simp [stepCore, finishCore, hrefs, hnf, hc, hdead']
 
 /-- **A later `then` replaces an earlier one (documented): the replaced continuation never runs.** -/
 theorem replaced_never_runs (kind : Kind) (pre post : List Op) (ctx : Nat) (body : List Inner) :
@@ -104,7 +104,7 @@ theorem late_then_gets_value (s : St) (r : Nat) (ctx : Nat) (body : List Inner)
 theorem finish_stores_when_unattached (s : St) (v : Nat)
     (hrefs : s.refs ≠ 0) (hnf : s.finished = false) (hc : s.cont = none) (hk : s.kind = .value) :
     (stepCore s (.finish v)).1.result = some v ∧ (stepCore s (.finish v)).2 = [] := by
-  simp [stepCore, hrefs, hnf, hc, hk]
+  simp [stepCore, finishCore, hrefs, hnf, hc, hk]
 
 /-- **Documented surprise, stated so it cannot drift silently:** on a value task a second late
 `then` (the value was already delivered) is dropped. -/
@@ -136,6 +136,34 @@ theorem late_then_retains_nothing (s : St) (ctx : Nat) (body : List Inner)
         | some c => have := (runInner_frame body _).cont_sub c h; simp [hc] at this
       · exact hc
 
+/-- **A context destroyed while `finish` converts its argument.**  The converting overload
+`finish(U&&)` builds the result with `T(U&&)` after it has tested the context and before the
+continuation is invoked; if that conversion destroys context `c` (a real object), no continuation
+registered with `c` runs in this step — the wrapper installed by `then` tests the context again — nor,
+by `never_after_context_death`, ever after. -/
+theorem context_killed_by_conversion_never_runs (s : St) (c : Nat) (hc : c ≠ 0) (v : Nat) :
+    c ∉ ranCtxs (stepCore s (.finishK c v)).2 := by
+  intro hm
+  simp only [stepCore, finishCore] at hm
+  split at hm
+  · simp [ranCtxs] at hm
+  · split at hm
+    · rename_i k hk
+      split at hm
+      · rcases invokeCont_ctx _ k _ c hm with h | h
+        · exact hc h
+        · apply h; simp
+      · simp [ranCtxs] at hm
+    · split at hm <;> simp [ranCtxs] at hm
+
+/-- **`takeResult()` consumes the value**: afterwards nothing is stored, so (with
+`late_attach_after_consumed_is_dropped`) a later `then` is dropped instead of being handed a moved-from object. -/
+theorem take_consumes (s : St) : (stepCore s .take).1.result = none ∨ s.refs = 0 := by
+  simp only [stepCore]
+  split
+  · right; assumption
+  · left; rfl
+
 /-- **Release.** In every reachable state with no handle left, the shared record holds neither a
 value nor a continuation (`shared_ptr` destruction frees both). -/
 theorem released_when_unreferenced (kind : Kind) (ops : List Op) :
@@ -149,7 +177,7 @@ history, every kind, stored, late and re-entrant attaches alike.  (Before repo c
 handed the moved-from value; the old model proved the negation with the witness
 `[finish 7, then 1 [thenI 1]]`, which is kept in the harness corpus.) -/
 theorem every_delivery_is_the_finished_value (kind : Kind) (ops : List Op) (v : Nat)
-    (hops : ∀ op ∈ ops, ∀ v', op = .finish v' → v' = v) :
+    (hops : ∀ op ∈ ops, ∀ v', op.finishVal = some v' → v' = v) :
     ∀ k c d, Ev.ran k c d ∈ (run (init kind) ops).2 → d = deliveredOf kind v :=
   run_deliv ops (init kind) v ⟨fun _ => rfl, fun r hr => by simp [init] at hr⟩ hops
 
@@ -270,5 +298,9 @@ example :
       s2.alive (s0.effCtx 1) = true := by decide
 example : let s0 := (run (init .value) [.copyHandle, .finish 4, .dropHandle]).1
     s0.refs ≠ 0 ∧ s0.finished = true ∧ s0.result.isSome := by decide
+
+example : (run (init .value) [.thenOp 1 [], .finishK 1 5]).2 = [] := by decide
+example : (run (init .value) [.thenOp 1 [], .finishK 2 5]).2 = [.ran 0 1 (some 5)] := by decide
+example : (run (init .value) [.finish 5, .take, .thenOp 1 []]).2 = [] := by decide
 
 end Qx.C13
